@@ -58,7 +58,9 @@ def run(sc, keep_sim=False, hold=None):
         for te in sc.get('tx_errors', []):
             # {'s': stack, 'nth': k}: the k-th frame that stack hands to the driver is refused with can.CanError
             stacks[te['s']].tx_error_at = set(getattr(stacks[te['s']], 'tx_error_at', set())) | {te['nth']}
-        if hold:
+        if hold and hold.get('reader'):
+            install_reader_hold(sim, stacks, hold)
+        elif hold:
             install_hold(sim, stacks, hold)
         for hk in sc.get('on_tx', []):
             # {'s': stack, 'pgn16': PGN bits 8..23 of the id to match (e.g. 0xEEFF), 'nth': which match, 'ops': [...]}: the ops run as
@@ -99,6 +101,9 @@ def run(sc, keep_sim=False, hold=None):
         res.cas = [[(ca._device_address_state, ca._device_address, ca._device_address_announced, ca._started) for ca in st.cas] for st in stacks]
         res.end = sim.now
     finally:
+        if getattr(sim, 'reader_tracer', None) is not None:
+            import sys
+            sys.settrace(None)
         if not keep_sim:
             sim.close()
         else:
@@ -289,6 +294,42 @@ def install_hold(sim, stacks, hold):
         finally:
             sys.settrace(None)
     job.target = run_traced
+
+
+def install_reader_hold(sim, stacks, hold):
+    """C08, the other way round: the thread that feeds received frames in is suspended at the hold['k']-th line it executes inside the
+    transport layer of stack hold['s'], and the job thread of that stack — woken for whatever reason (its wait has a time limit; a
+    timer, another session) — runs a whole pass before the handler goes on."""
+    import sys
+    st = stacks[hold['s']]
+    state = {'n': 0, 'done': False}
+    st.held_at = None
+    dll = st.ecu.j1939_dll
+
+    def local(frame, event, arg):
+        if event == 'line' and not state['done'] and sim.current is None:
+            state['n'] += 1
+            if state['n'] == hold['k']:
+                state['done'] = True
+                st.held_at = (frame.f_code.co_filename.split('/')[-1], frame.f_lineno)
+                old = getattr(sim, 'eager_wake', False)
+                sim.eager_wake = True
+                try:
+                    st.ecu._job_thread_wakeup_queue.put(1)          # the woken job thread runs now, until it waits again
+                finally:
+                    sim.eager_wake = old
+        return local
+
+    def tracer(frame, event, arg):
+        if state['done'] or sim.current is not None:
+            return None
+        co = frame.f_code
+        if '/j1939/j1939_2' in co.co_filename and co.co_name in ('_process_tp_cm', '_process_tp_dt', 'notify', '_process_multi_pg') \
+                and frame.f_locals.get('self') is dll:
+            return local
+        return None
+    sim.reader_tracer = tracer
+    sys.settrace(tracer)
 
 
 def sc_hash(sc):
